@@ -96,6 +96,75 @@ pub open spec fn label_of(content_encoding: Option<&str>) -> Seq<u8> {
 //@rule X7.to-string * s/content_encoding\.to_string\(\)/to_owned_string(content_encoding)/
 //@end
 
+// ------------------------------------------------------------------ which charset: Response::content_type
+/// the response as `content_type` sees it
+#[verifier::external_body]
+pub struct Response { _p: u8 }
+#[verifier::external_body]
+pub struct HeaderValues { _p: u8 }
+#[verifier::external_body]
+pub struct HeaderValue { _p: u8 }
+#[verifier::external_body]
+pub struct Mime { _p: u8 }
+pub enum HeaderName { ContentType, Other(u8) }
+pub const CONTENT_TYPE: HeaderName = HeaderName::ContentType;
+/// what parsing a string as a media type gives (http-types / mime: uninterpreted)
+pub uninterp spec fn mime_of(s: Seq<char>) -> Option<Mime>;
+// ASSUMED (`s.parse::<Mime>().ok()`)
+#[verifier::external_body]
+pub fn parse_mime(s: &str) -> (r: Option<Mime>)
+    ensures r == mime_of(s@),
+{ unimplemented!() }
+impl HeaderValue {
+    pub uninterp spec fn text(&self) -> Seq<char>;
+    #[verifier::external_body]
+    pub fn as_str(&self) -> (r: &str)
+        ensures r@ == self.text(),
+    { unimplemented!() }
+}
+impl HeaderValues {
+    /// the values of the header in the order they were appended (http-types puts the default it
+    /// derives from the body first, the values the shell sent after it)
+    pub uninterp spec fn vals(&self) -> Seq<HeaderValue>;
+    // ASSUMED (http-types): the last value / the first value (HeaderValues derefs to its first value)
+    #[verifier::external_body]
+    pub fn last(&self) -> (r: &HeaderValue)
+        requires self.vals().len() > 0,
+        ensures *r == self.vals().last(),
+    { unimplemented!() }
+    #[verifier::external_body]
+    pub fn as_str(&self) -> (r: &str)
+        requires self.vals().len() > 0,
+        ensures r@ == self.vals()[0].text(),
+    { unimplemented!() }
+}
+impl Response {
+    pub uninterp spec fn content_type_values(&self) -> Option<HeaderValues>;
+    // ASSUMED (Response::header -> Headers::get): the values stored under that name; a stored header has at least one value
+    #[verifier::external_body]
+    pub fn header(&self, name: HeaderName) -> (r: Option<&HeaderValues>)
+        ensures name is ContentType ==> (match r { Some(v) => self.content_type_values() == Some(*v) && v.vals().len() > 0, None => self.content_type_values() is None }),
+    { unimplemented!() }
+
+//@extract id=Response::content_type file=crux_http/src/response/response.rs within="impl<Body> Response<Body>" item="fn content_type" props=C15
+//@expect pub fn content_type(&self) -> Option<Mime>
+//@sig pub fn content_type(&self) -> (r: Option<Mime>)
+//@contract
+        ensures
+            self.content_type_values() is None ==> r is None,
+            self.content_type_values() matches Some(vs) ==> r == mime_of(vs.vals().last().text()), // [C15/Response::content_type/the-declared-content-type-is-the-last-value-the-one-the-shell-sent]
+//@rule X7.parse 1 s/\.as_str\(\)\.parse\(\)\.ok\(\)/.as_str().parse_ok()/
+//@end
+}
+/// `s.parse().ok()` for a media type
+pub trait ParseOk { fn parse_ok(&self) -> Option<Mime>; }
+impl ParseOk for str {
+    #[verifier::external_body]
+    fn parse_ok(&self) -> (r: Option<Mime>)
+        ensures r == mime_of(self@),
+    { unimplemented!() }
+}
+
 } // verus!
 
 fn main() {}
